@@ -265,19 +265,23 @@ def hiddenOk (t : TState) : CLabel → Bool
   | .sSel => decide (t.c.buf = none) && decide (t.handed = none)   -- parking only; receiving has a hook
   | _ => false
 
-def runT (t : TState) (ls : List CLabel) (handed : Option Msg) : Option TState :=
-  (runC t.c ls).map fun c' => { c := c', handed := handed }
+def runT (old : Bool) (t : TState) (ls : List CLabel) (handed : Option Msg) : Option TState :=
+  ((if old then runCOld t.c ls else runC t.c ls)).map fun c' => { c := c', handed := handed }
 
 /-- a send on `stopped` that succeeds: direct hand-off if serviceStart is parked (remember the message until its
     `ss.recv` is placed), otherwise into the free buffer slot -/
-def sendT (t : TState) (l : CLabel) (m : Msg) : Option TState :=
+def sendT (old : Bool) (t : TState) (l : CLabel) (m : Msg) : Option TState :=
   if t.handed ≠ none then none
-  else if t.c.spc = .parked then runT t [l] (some m)
-  else if t.c.buf = none then runT t [l] none
+  else if t.c.spc = .parked then runT old t [l] (some m)
+  else if t.c.buf = none then runT old t [l] none
   else none
 
-/-- one event: check its reported outcome against the model state and take the model step(s) it stands for -/
-def tstep (t : TState) (e : Ev) : Option TState :=
+/-- one event: check its reported outcome against the model state and take the model step(s) it stands for.
+    `old = true`: the pre-fix Close (`stepCoreOld`: one non-blocking send, event `close.dropped`), kept so that a log of the
+    pre-fix code can be recognised as such; the check proper (`traceOk`, `trace_sound`) uses `old = false`. -/
+def tstep (old : Bool) (t : TState) (e : Ev) : Option TState :=
+  let runT := runT old
+  let sendT := sendT old
   let c := t.c
   let closeL : CLabel := if c.cpc = .idle then .closeCall else .closeAgain
   match e.pt with
@@ -309,24 +313,30 @@ def tstep (t : TState) (e : Ev) : Option TState :=
   | "close.running" => if c.running then runT t [closeL, .cLoad] t.handed else none
   | "close.svc" => if c.cpc = .signal ∧ c.svcErr = decide (e.k ≠ 0) then some t else none
   | "close.sent" => if c.cpc = .signal then sendT t .cSignal .cancelled else none
-  | "close.dropped" =>
-    if c.cpc = .signal ∧ t.handed = none ∧ c.spc ≠ .parked ∧ c.buf ≠ none then runT t [.cSignal] none else none
+  | "close.full" =>      -- the send attempt found the channel full
+    if !old ∧ c.cpc = .signal ∧ t.handed = none ∧ c.spc ≠ .parked ∧ c.buf ≠ none then runT t [.cSignal] none else none
+  | "close.drained" =>   -- the drain attempt took a message out
+    if !old ∧ c.cpc = .drain ∧ c.buf ≠ none then runT t [.cDrain] t.handed else none
+  | "close.empty" =>     -- the drain attempt found nothing (serviceStart had taken the message meanwhile)
+    if !old ∧ c.cpc = .drain ∧ c.buf = none then runT t [.cDrain] t.handed else none
+  | "close.dropped" =>   -- pre-fix code only: the one non-blocking send gave up
+    if old ∧ c.cpc = .signal ∧ t.handed = none ∧ c.spc ≠ .parked ∧ c.buf ≠ none then runT t [.cSignal] none else none
   | _ => none
 
 /-- replay a proposed explanation -/
-def replay (evs : Array Ev) : TState → List Item → Option TState
+def replay (old : Bool) (evs : Array Ev) : TState → List Item → Option TState
   | t, [] => some t
   | t, .ev i :: is =>
     (match evs[i]? with
      | none => none
      | some e =>
-       match tstep t e with
-       | some t' => replay evs t' is
+       match tstep old t e with
+       | some t' => replay old evs t' is
        | none => none)
   | t, .hid l :: is =>
     if hiddenOk t l then
-      (match stepCore t.c l with
-       | some c' => replay evs { t with c := c' } is
+      (match stepCore t.c l with   -- hidden steps are never Close's send: the same in both variants
+       | some c' => replay old evs { t with c := c' } is
        | none => none)
     else none
 
@@ -371,7 +381,11 @@ def initOf (latched : Bool) : Core := if latched then initL else init
 
 /-- the trace check -/
 def traceOk (latched : Bool) (evs : Array Ev) (items : List Item) : Bool :=
-  wellOrdered evs (evIndices items) && (replay evs { c := initOf latched } items).isSome
+  wellOrdered evs (evIndices items) && (replay false evs { c := initOf latched } items).isSome
+
+/-- the same against the pre-fix Close: used only to say of a REJECTED log that it is a run of the old code -/
+def traceOkOld (latched : Bool) (evs : Array Ev) (items : List Item) : Bool :=
+  wellOrdered evs (evIndices items) && (replay true evs { c := initOf latched } items).isSome
 
 
 /-! ### trace validation of the OCR2 `RecoverableService` (hooks in internal/util)
